@@ -118,6 +118,9 @@ theorem lookToRh_spec (eye : P3 ℝ) (d up : V3 ℝ) (hd : 0 < d.magnitude2)
     rw [e1, e2]
     have := (Cg.C11.V3.magnitude_sq c).2
     positivity
+/-- relations between the model's look-at constructors, each true by construction of the model (`rfl`): left-handed is
+right-handed at `-d`; conjuncts 2 and 3 keep the direction in the unreduced form `(eye + d) - eye` (that it is `d` is not
+stated here); see `lookAt_eq_lookTo` for the general `center` -/
 theorem lookToLh_eq (eye : P3 ℝ) (d up : V3 ℝ) :
     M4.lookToLh eye d up = M4.lookToRh eye (-d) up ∧
     M4.lookAtRh eye (eye + d) up = M4.lookToRh eye ((eye + d) - eye) up ∧
@@ -129,8 +132,9 @@ theorem lookAt_eq_lookTo (eye center : P3 ℝ) (up : V3 ℝ) :
     M4.lookAtLh eye center up = M4.lookToLh eye (center - eye) up ∧
     M3.lookAtRh eye center up = M3.lookToRh (center - eye) up ∧
     M3.lookAtLh eye center up = M3.lookToLh (center - eye) up := ⟨rfl, rfl, rfl, rfl⟩
-/-- the rotation types' `look_at` is the left-handed matrix; `Decomposed::look_at_*` uses it and
-sends the eye to the origin -/
+/-- the rotation types' `look_at` is the left-handed matrix (first two conjuncts: by construction of the model);
+`Decomposed::look_at_*` uses it: it maps every `p` to `M * (p - eye)` with `M` that matrix (so the eye goes to `M * 0`; the
+conclusion `= origin` is not drawn in this statement) -/
 theorem rotation_lookAt (d up : V3 ℝ) (eye p : V3 ℝ) :
     (Basis3.lookAt d up).mat = M3.lookToLh d up ∧ Quat.lookAt d up = (M3.lookToLh d up).toQuat ∧
     (Decomposed.lookAtDir basis3Ops d up V3.zero eye : Decomposed (Basis3 ℝ) (V3 ℝ) ℝ).transformPointV basis3Ops p
